@@ -56,7 +56,7 @@ def diff_cells(before, after, skip=()):
     return out
 
 
-def expected_outcome(opts, init_check, evals):
+def expected_outcome(opts, init_check, evals, dtype=None):
     """Walk the state machine over the recorded evaluation passes.
 
     evals: list of records (with 'post' = check values after the pass, 'exc' = exception class name or None).
@@ -108,6 +108,14 @@ def expected_outcome(opts, init_check, evals):
         judged.append(k)
         moved = [abs(c - p) for c, p in zip(cur, prev)]
         within = [m < tol for m in moved]
+        if dtype is not None:
+            # a model in a narrower dtype does its step arithmetic in that dtype; where rounding there and the exact
+            # difference disagree about 'less than tol', nothing is prescribed
+            with np.errstate(all='ignore'):
+                narrow = (np.abs(np.array(cur, dtype=dtype) - np.array(prev, dtype=dtype)) < tol).tolist()
+            if narrow != within:
+                tags.add('narrow-dtype-rounding-at-tol')
+                return {'end': 'rounding', 'k': k, 'npass': k, 'judged': judged, 'tags': tags}
         if any(m == tol for m in moved):
             tags.add('moved-exactly-tol')
         if any(within) and not all(within):
@@ -240,11 +248,13 @@ def judge_single(call, chk, probe=None):
         chk('pre-hook-exc/no-pass', len(evals) == 0 and len(afters) == 0, {'evals': len(evals)})
         return {'end': 'pre-hook-exc'}
 
-    E = expected_outcome(opts, init_check, evals)
+    E = expected_outcome(opts, init_check, evals, dtype={'float32': np.float32}.get(call.get('dtype')))
     for tg in E['tags']:
         P(tg)
     end = E['end']
     P('end:' + end)
+    if end == 'rounding':
+        return E
 
     if end == 'short':
         chk('passes/too-few', False, {'performed': len(evals), 'machine-still-running-at': E['k'], 'opts': opts})
